@@ -7,10 +7,10 @@ ALL = [f'C{i:02d}' for i in range(1, 21)]
 # id -> (design_ref, technique, level text, level note)
 CHECKS = {
  'C06': ('DESIGN.md §4 C06',
-         'Coq proof (induction on fuel, lia) over an executable model of the split recursion + AST translator lemma + vm_compute correspondence with real fits',
+         'Coq proof (induction on fuel, lia) over an executable model of the split recursion + AST translator lemma + vm_compute correspondence with real fits + axiom-free Coq theorems about an executable model of the tree-iteration loop and of the loop over n_trees (TreeIter: the kept tree is the first best of the constructed trees, a time limit is a cut iteration budget, at most 1 + n_tree_iters constructions, single-leaf stop, has_split gate), its statement order and selection operator re-translated from the source each run (treeiterops) and scripted runs of the REAL loops compared with the model by vm_compute (binary64 scores)',
          'Theorems for every n, L, overlap rule: termination within n steps, leaf bound, ceil/floor halves plus band, depth bound ceil(log2(n/L)), split quota; '
          'the integer arithmetic of _get_balanced_split/_refill_val_set/_build_tree is re-translated from the source on every run and proved equal to the model; '
-         'tree shapes of real fits and the real split routine on every (f,n) are compared with the model inside Coq.',
+         'tree shapes of real fits and the real split routine on every (f,n) are compared with the model inside Coq. C06b: for every builder, score history and clock the tree a fitted model holds is one of the constructed trees (so every bound proved of a construction is inherited), constructions are bounded (termination), and the model holds at most n_trees trees of which only the last may be a single leaf; exhaustive short score histories over a small alphabet and random ones (ties, infinities, NaN, scripted clocks) are driven through the real _build_tree_with_iterations and the real fit loop.',
          'Trusted: Coq kernel + vm_compute, the AST translator, the recording wrapper, PrimFloat as a model of CPython float arithmetic; torch.sort returns a permutation. '
          'Leaf fitting itself is not part of this property (a leaf with an empty validation set is scored on its own rows by the harness).'),
 
@@ -62,7 +62,7 @@ CHECKS = {
          'The real converter (K 2..12, count grids incl. zeros and 1000:1) is compared with the model and its _C/_invA/_prior are checked in Coq.',
          'Trusted: Coq kernel + vm_compute, MathComp 1.15, float32->Q printing; torch.linalg.qr / inv accuracy is checked per instance (converter_okb, delta 1e-4), not assumed.'),
  'C16': ('DESIGN.md §4 C16',
-         'Coq proofs over Q (and R for sqrt/ln) that every metric is bounded by its perfect-prediction value in the declared direction + metric classes re-translated from the source each run (directions, torch op sequences, scikit-learn calls) and proved equal to the model (metricops) + vm_compute / interval correspondence of Metric.compute with the textbook definitions',
+         'Coq proofs over Q (and R for sqrt/ln) that every metric is bounded by its perfect-prediction value in the declared direction + metric classes re-translated from the source each run (directions, torch op sequences, scikit-learn calls) and proved equal to the model (metricops) + vm_compute / interval correspondence of Metric.compute with the textbook definitions + axiom-free Coq theorem that the declared direction is truthful for every class metric AS DISPATCHED (binary / macro F1, one-vs-rest AUC, Brier, accuracy; MetricsWhole: perfect predictions score at least as well as any predictions, for every K, labels and prediction matrix; side conditions proved necessary by counterexamples; scikit-learn\'s present-labels macro average modelled and proved to coincide when all classes occur)',
          'Theorems: mse/mae/brier/log-loss >= 0 with 0 at perfect predictions, rmse monotone in mse; accuracy/F1/AUC <= 1 with 1 at perfect predictions (AUC with ties counted one half); direction table. '
          'All 8 metrics are run on perfect, constant, adversarial, tied and random arrays and compared with the Q model in Coq (log-loss by interval lemmas) and with exact Fraction re-statements; flags compared exhaustively.',
          'Trusted: Coq kernel + vm_compute, Interval tactic, real-number axioms; float32 tolerance 3e-6 relative; sklearn clipping below 1e-6 is outside the quantifier.'),
@@ -103,13 +103,13 @@ CHECKS = {
          'partial: that torch.func.jacrev returns the partial derivatives of the closure it is given is PyTorch\'s contract (checked numerically per instance — this is how the multi-output cdist/vmap defect was found). Trusted: Coq kernel, Coquelicot, Interval, real-number axioms, mpmath, the gradops translator.'),
 
  'C14': ('DESIGN.md §4 C14',
-         'Coq proofs over Q (entrywise matrix algebra on lists) of the AGOP accumulation model + real-valued composition theorem with the gradient theorems of C04 (L2 kernel: accumulated matrix = sum over outputs and points of outer products of the true derivative of the leave-own-terms-out predictor) + refutation witness for centred accumulation + update_M / fit_M and the per-batch reductions re-translated from the source each run (agopops, gradops) + vm_compute of the model on the gradients the implementation itself returns + axiom-free MathComp theorem that the coded root formula U diag(sqrt(clip s)) U^T squares back / is symmetric PSD for orthogonal U (MatRoot; the SVD itself stays a per-instance contract) + fit_M vs the AGOP from automatic derivatives of the documented kernel',
+         'Coq proofs over Q (entrywise matrix algebra on lists) of the AGOP accumulation model + real-valued composition theorem with the gradient theorems of C04 (L2 kernel: accumulated matrix = sum over outputs and points of outer products of the true derivative of the leave-own-terms-out predictor) + refutation witness for centred accumulation + update_M / fit_M and the per-batch reductions re-translated from the source each run (agopops, gradops) + vm_compute of the model on the gradients the implementation itself returns + axiom-free MathComp theorem that the coded root formula U diag(sqrt(clip s)) U^T squares back / is symmetric PSD for orthogonal U (MatRoot; the SVD itself stays a per-instance contract) + fit_M vs the AGOP from automatic derivatives of the documented kernel + the same composition theorem for the product and Lpq kernels (AgopOfPredictorPQ: accumulated matrix = sum over outputs and points of outer products of the true partial derivatives of the predictor with the point\'s own centre removed)',
          'Theorems for every number of points/outputs/dimension and every batch size: the accumulated matrix is the sum of gradient outer products, independent of the batch size (no centring), symmetric, positive semi-definite (x^T M x = sum (g.x)^2), diagonal mode = its diagonal, normalised entries <= 1. With centring ON the statement is refuted in the model (witness) and on the implementation (known finding). '
          'fit_M(inplace=False) of small fitted leaves (all CPU kernels, diag/full, 1-3 outputs, batch sizes 1..n+5) is compared with the Q model evaluated in Coq on the implementation\'s own get_function_grads output; root squares back; agop_best_model is the AGOP of the returned predictor.',
          'partial: matrix root (SVD) is a contract (checked numerically), gradient values are C04; the 1e-8 diagonal ridge that the matrix-power routine adds in place is accepted with or without (the property does not ask for it); get_agop / get_agop_diag reductions are re-translated from the source each run (gradops). KNOWN FINDING: center_grads=True is batch-size dependent.'),
 
  'C19': ('DESIGN.md §4 C19',
-         'Coq proofs (Reals) of scale invariance of the Laplace-family closed forms, homogeneity of the lower median and of the closed-form L2 gradient, the bandwidth update as coded (= base x median of distances, homogeneous), and the composition theorem (a whole fit commutes with rescaling when its components are homogeneous; solver arbitrary) + _adapt_bandwidth and its call sites re-translated from the source each run (bwops, kernelops) + vm_compute order-statistic check of the stored bandwidth + rescaling differential + the composition instantiated for the product and Lpq kernels (ScaleInvPQ)',
+         'Coq proofs (Reals) of scale invariance of the Laplace-family closed forms, homogeneity of the lower median and of the closed-form L2 gradient, the bandwidth update as coded (= base x median of distances, homogeneous), and the composition theorem (a whole fit commutes with rescaling when its components are homogeneous; solver arbitrary) + _adapt_bandwidth and its call sites re-translated from the source each run (bwops, kernelops) + vm_compute order-statistic check of the stored bandwidth + rescaling differential + the composition instantiated for the product and Lpq kernels (ScaleInvPQ) and for the memory-light L2 kernel (ScaleInvLight: kernel, light distance, masked gradient and whole fit commute with rescaling; mask side condition proved necessary by a counterexample)',
          'Theorems for every dimension, transform, exponent, c > 0: K_{cL}(cx, cz) = K_L(x, z) for the L2, product and Lpq kernels; lower_median(c * l) = c * lower_median(l). '
          'After real adaptive fits (l2, l2_high_dim, l1, lpq; iters 0-4; early stop / best-restore) the stored bandwidth is compared with base x lower median of the pairwise kernel-norm distances of the transformed training points under the stored feature matrix (order-statistic claim checked in Coq), and predictions on inputs rescaled by 1e-3..1e3 are compared with the unscaled fit.',
          'partial: that a whole fit commutes with scaling uses the solver/median contracts; float effects (eps mask, 1e-30) are bounded by tolerances. Trusted: Coq kernel, vm_compute, real-number axioms, float64 distance recomputation.'),
